@@ -263,7 +263,7 @@ def shard_text(ctx: Ctx, sh: int, nshards: int, n: int) -> Stats:
         for sig, det in tool_calls(text, sh):
             st.fail(sig, {"kind": "text", "text": text}, det)
 
-    drive(text_strategy(), one, ctx.shard_seed(sh, 7), n)
+    drive(text_strategy(), one, ctx.shard_seed(sh, 7), n, chunk=4000)
     return st
 
 
